@@ -10,7 +10,12 @@
 //	in     interop: reference-encoded stream decoded by the library reader
 //	ovl    overlapping writers / readers (all opened before use) after each disturbance
 //	hist   history independence of pooled readers/writers (after normal and after failed streams)
+//	srcerr underlying reader fails after k bytes: error or the full payload, never wrong data
+//	stress many goroutines opening/closing pooled readers and writers in tight loops
 //	conc   one codec value used from many goroutines
+//
+// Every read-direction op feeds the codec reader from a source that uses the freedom of io.Reader's contract:
+// short reads, occasional (0, nil), final bytes together with io.EOF.
 package main
 
 import (
@@ -178,16 +183,49 @@ func compressChunks(c compress.Codec, p []byte, chunks []int) ([]byte, error) {
 	return buf.Bytes(), nil
 }
 
-// chunked source: the underlying reader also delivers in pieces
+// Source reader behaviours allowed by io.Reader's contract: short reads of any size, (0, nil) reads now and
+// then, the last bytes returned TOGETHER with io.EOF, and an error after k bytes.
 type piecewise struct {
-	b []byte
-	n func() int
+	b        []byte
+	n        func() int
+	dataEOF  bool // return the final bytes with io.EOF in the same call
+	zeroAt   int  // every zeroAt-th call returns (0, nil); 0 = never
+	failAt   int  // ≥ 0: after that many bytes return failErr
+	calls    int
+	lastZero bool
+}
+
+var errSource = errors.New("source failed")
+
+var srcMu sync.Mutex
+var srcRand = rand.New(rand.NewSource(gen.Seed() + 77))
+
+// zeroReads: (0, nil) answers are legal but "discouraged" by io.Reader; klauspost's zstd decoder (v1.15.9, third
+// party) answers them with io.ErrUnexpectedEOF, so they are not generated for zstd (audit note in docs/notes/C16.md).
+func newSource(stream []byte, n func() int, zeroReads bool) *piecewise {
+	srcMu.Lock()
+	defer srcMu.Unlock()
+	p := &piecewise{b: stream, n: n, failAt: -1}
+	p.dataEOF = srcRand.Intn(2) == 0
+	if zeroReads && srcRand.Intn(3) == 0 {
+		p.zeroAt = 2 + srcRand.Intn(5)
+	}
+	return p
 }
 
 func (p *piecewise) Read(b []byte) (int, error) {
+	p.calls++
+	if p.failAt == 0 {
+		return 0, errSource
+	}
 	if len(p.b) == 0 {
 		return 0, io.EOF
 	}
+	if p.zeroAt > 0 && p.calls%p.zeroAt == 0 && !p.lastZero && len(b) > 0 {
+		p.lastZero = true
+		return 0, nil
+	}
+	p.lastZero = false
 	n := p.n()
 	if n > len(b) {
 		n = len(b)
@@ -195,13 +233,29 @@ func (p *piecewise) Read(b []byte) (int, error) {
 	if n > len(p.b) {
 		n = len(p.b)
 	}
+	if p.failAt > 0 && n > p.failAt {
+		n = p.failAt
+	}
 	copy(b, p.b[:n])
 	p.b = p.b[n:]
+	if p.failAt > 0 {
+		p.failAt -= n
+		if p.failAt == 0 {
+			return n, errSource
+		}
+	}
+	if len(p.b) == 0 && p.dataEOF {
+		return n, io.EOF
+	}
 	return n, nil
 }
 
 func decompressChunks(c compress.Codec, stream []byte, src, dst func() int) ([]byte, []int, error) {
-	r := c.NewReader(&piecewise{b: stream, n: src})
+	return decompressFrom(c, newSource(stream, src, c.Name() != "zstd"), dst)
+}
+
+func decompressFrom(c compress.Codec, source io.Reader, dst func() int) ([]byte, []int, error) {
+	r := c.NewReader(source)
 	defer r.Close()
 	var res []byte
 	var ns []int
@@ -321,9 +375,15 @@ func xerialBlocks(stream []byte) (string, bool) {
 
 type failingWriter struct{ after int }
 
+// Write accepts `after` more bytes, then fails (a short write with an error, as io.Writer requires).
 func (f *failingWriter) Write(b []byte) (int, error) {
-	if f.after <= 0 {
-		return 0, errors.New("sink failed")
+	if f.after < len(b) {
+		n := f.after
+		if n < 0 {
+			n = 0
+		}
+		f.after = 0
+		return n, errors.New("sink failed")
 	}
 	f.after -= len(b)
 	return len(b), nil
@@ -463,6 +523,95 @@ func overlapping(r *rand.Rand, c compress.Codec, name string, ps [][]byte) strin
 	return res
 }
 
+// readAllBounded is io.ReadAll that gives up on a reader making no progress (a broken reader must cost
+// seconds, not minutes).
+func readAllBounded(r io.Reader) ([]byte, error) {
+	var out []byte
+	buf := make([]byte, 8192)
+	idle := 0
+	for {
+		n, err := r.Read(buf)
+		out = append(out, buf[:n]...)
+		if err != nil {
+			if errors.Is(err, io.EOF) {
+				return out, nil
+			}
+			return out, err
+		}
+		if n == 0 {
+			idle++
+			if idle > 1000 {
+				return out, errors.New("reader makes no progress")
+			}
+		} else {
+			idle = 0
+		}
+	}
+}
+
+// stress: many goroutines opening / closing readers and writers of one codec value in tight loops, several
+// readers open per goroutine (objects then travel between goroutines through the pools' shared lists); every
+// stream must decode to its own payload.
+func stress(r *rand.Rand, cs []codecCase, G, iters int) {
+	for _, cc := range cs {
+		ps := make([][]byte, 4)
+		streams := make([][]byte, 4)
+		for i := range ps {
+			ps[i] = payload(r, i%3, []int{50, 700, 5000, 33000}[i])
+			streams[i], _ = compressChunks(cc.codec, ps[i], []int{len(ps[i])})
+		}
+		var wg sync.WaitGroup
+		var mu sync.Mutex
+		first := "none"
+		bad := 0
+		for g := 0; g < G; g++ {
+			wg.Add(1)
+			go func(g int) {
+				defer wg.Done()
+				res := guard(func() string {
+					for it := 0; it < iters; it++ {
+						// several readers open at once per goroutine, closed in a different order
+						i, j := (g+it)%4, (g+2*it+1)%4
+						r1 := cc.codec.NewReader(bytes.NewReader(streams[i]))
+						r2 := cc.codec.NewReader(bytes.NewReader(streams[j]))
+						g2, e2 := readAllBounded(r2)
+						g1, e1 := readAllBounded(r1)
+						r1.Close()
+						r2.Close()
+						if e1 != nil || e2 != nil {
+							return fmt.Sprintf("error:%v/%v", e1, e2)
+						}
+						if !bytes.Equal(g1, ps[i]) || !bytes.Equal(g2, ps[j]) {
+							return fmt.Sprintf("wrong-data:%s/%s-for-%s/%s", sum(g1), sum(g2), sum(ps[i]), sum(ps[j]))
+						}
+						if it%4 == 0 {
+							var buf bytes.Buffer
+							w := cc.codec.NewWriter(&buf)
+							w.Write(ps[i])
+							w.Close()
+							d, err := refDecode(cc.name, buf.Bytes())
+							if err != nil || !bytes.Equal(d, ps[i]) {
+								return "writer-output-not-readable-by-reference"
+							}
+						}
+					}
+					return "ok"
+				})
+				if res != "ok" {
+					mu.Lock()
+					bad++
+					if first == "none" {
+						first = strings.ReplaceAll(res, " ", "_")
+					}
+					mu.Unlock()
+				}
+			}(g)
+		}
+		wg.Wait()
+		emit(fmt.Sprintf("stress %s %d", cc.name, G), fmt.Sprintf("ok %d %s", G-bad, first))
+	}
+}
+
 func main() {
 	defer out.Flush()
 	r := gen.New()
@@ -472,8 +621,21 @@ func main() {
 		rounds = 6
 	}
 	cs := codecs()
+	stressOnly := len(os.Args) > 1 && os.Args[1] == "stress"
+	if stressOnly {
+		// watchdog: whatever hangs, report what was observed so far
+		time.AfterFunc(45*time.Second, func() {
+			emit("stress watchdog 0", "timeout")
+			out.Flush()
+			os.Exit(3)
+		})
+	}
 
 	for round := 0; round < rounds; round++ {
+		if stressOnly {
+			stress(r, cs, 32, 120)
+			continue
+		}
 		// --- xw: writer block structure
 		for _, framed := range []bool{true, false} {
 			c := &snappy.Codec{}
@@ -591,6 +753,65 @@ func main() {
 				}))
 				_ = want
 			}
+		}
+		// --- srcerr: the underlying reader fails after k bytes: an error (or the full payload), never wrong data
+		for _, cc := range cs {
+			for i := 0; i < 6; i++ {
+				p := payload(r, r.Intn(3), []int{20, 3000, 40000, 70000}[r.Intn(4)])
+				stream, err := compressChunks(cc.codec, p, chunking(r, len(p)))
+				if err != nil || len(stream) < 2 {
+					continue
+				}
+				k := r.Intn(len(stream))
+				emit(fmt.Sprintf("srcerr %s %s cut%d/%d", cc.name, sum(p), k, len(stream)), guard(func() string {
+					src := newSource(stream, readSizes(r), cc.codec.Name() != "zstd")
+					src.failAt = k
+					got, _, err := decompressFrom(cc.codec, src, readSizes(r))
+					switch {
+					case err != nil:
+						return "sound"
+					case bytes.Equal(got, p):
+						return "sound"
+					}
+					return "unsound:ok-with-" + sum(got)
+				}))
+			}
+		}
+		// --- wrerr: the underlying writer fails after k bytes: Write or Close must report an error
+		for _, cc := range cs {
+			for i := 0; i < 4; i++ {
+				p := payload(r, r.Intn(3), []int{20, 3000, 40000, 70000}[r.Intn(4)])
+				stream, err := compressChunks(cc.codec, p, []int{len(p)})
+				if err != nil || len(stream) < 2 {
+					continue
+				}
+				k := r.Intn(len(stream))
+				chunks := chunking(r, len(p))
+				emit(fmt.Sprintf("wrerr %s %s cut%d/%d", cc.name, sum(p), k, len(stream)), guard(func() string {
+					w := cc.codec.NewWriter(&failingWriter{after: k})
+					rest := p
+					var werr error
+					for _, n := range chunks {
+						if _, e := w.Write(rest[:n]); e != nil && werr == nil {
+							werr = e
+						}
+						rest = rest[n:]
+					}
+					if e := w.Close(); e != nil && werr == nil {
+						werr = e
+					}
+					if werr == nil {
+						return "unsound:no-error-reported"
+					}
+					return "sound"
+				}))
+			}
+		}
+		// --- stress: many goroutines opening / closing readers and writers in tight loops
+		if thorough {
+			stress(r, cs, 48, 150)
+		} else {
+			stress(r, cs, 24, 40)
 		}
 		// --- hist: same stream through pooled objects after disturbances; output bytes and data identical to first use
 		for _, cc := range cs {
